@@ -2,6 +2,7 @@ import NixModel.Lemmas.C12Agree
 import NixModel.Lemmas.C12Ops
 import NixModel.Lemmas.StoreWF
 import NixModel.Lemmas.C12Avail
+import NixModel.Lemmas.C12MultiTag
 
 /-!
 # C12 — a refused operation leaves the file exactly as it was
@@ -178,9 +179,43 @@ same node after it -/
 theorem paths_kept {g g' : Graph} (h : Unch g g') (p : Path) (r : Loc)
     (hr : resolve g rootLoc p = some r) : resolve g' rootLoc p = some r := h.resolve p hr
 
-/-! ## Non-vacuity: a refused `create_data_array` that had already written, on a reachable state -/
+/-! ## `create_multi_tag` with positions / extents given as data
+
+The writer `createMultiTagW` follows `Block.create_multi_tag`: auto-created arrays
+`<name>-positions` / `<name>-extents`, and the `except` clause that deletes the half-built tag and
+then those arrays through `delete_all([id])`. -/
+
+/-- the full statement for this operation -/
+def MultiTagRefusedUnchanged : Prop :=
+  ∀ (g : Graph), WF g → ∀ (p : Path) (n t : String) (pos ext : ArrArg) (e : Err),
+    (createMultiTagW g p n t pos ext).2 = some e → Unch g (createMultiTagW g p n t pos ext).1
+
+/-- proved: refused ⇒ unchanged whenever no *successfully* auto-created array has to be deleted again
+(positions / extents are existing objects of any kind or block, None, or data of an invalid class).
+Missing for `MultiTagRefusedUnchanged`: that `delete_all([id])` of an auto-created array removes
+exactly the link just made — it needs `WF.ids_wf` (no other node carries the id just drawn) carried
+through the intermediate graphs. The correspondence exercises that path (`mtag:ok/…` injections). -/
+theorem multi_tag_refused_unchanged_partial {g : Graph} (hT : Tidy g) (p : Path) (n t : String)
+    (pos ext : ArrArg) (hA : NoAutoArray pos ext) (e : Err)
+    (h : (createMultiTagW g p n t pos ext).2 = some e) : Unch g (createMultiTagW g p n t pos ext).1 :=
+  createMultiTagW_unch_partial hT p n t pos ext hA e h
+
+/-- the inner `create_data_array` of `create_multi_tag` refuses without a trace -/
+theorem auto_array_refused_unchanged {g : Graph} (hT : Tidy g) (p : Path) (n t : String) (f : Option Fault)
+    (e : Err) (h : (autoArray g p n t f).2 = .error e) : Unch g (autoArray g p n t f).1 :=
+  autoArray_unch hT p n t f e h
 
 def demo : Graph := run init [.createBlock "b" "t", .createIn [.name "data", .name "b"] "data_array" "a" "t" none]
+
+/-- a concrete instance of the part without theorem: valid positions data, extents of an invalid
+class — the auto-created `m-positions` is gone again from the block's `data_arrays` -/
+def demoMT : Reached :=
+  createMultiTagW demo [.name "data", .name "b"] "m" "t" (.data none) (.data (some ⟨.entity, .typeError⟩))
+
+example : (demoMT.2, (demoMT.1.links 4).map (·.1)) = (some .typeError, (demo.links 4).map (·.1)) := by
+  decide +kernel
+
+/-! ## Non-vacuity: a refused `create_data_array` that had already written, on a reachable state -/
 
 def badDtype : OpW :=
   .createIn [.name "data", .name "b"] "data_array" "n" "t" none (some ⟨.entity, .typeError⟩)
